@@ -173,6 +173,19 @@ class Mutations:
                 bind(n.target, ('expr', n.value))
             elif isinstance(n, ast.ExceptHandler) and n.name:
                 defs.setdefault(n.name, []).append(('fresh', n))
+            # a local container that is filled: what it holds afterwards (flow-insensitive)
+            elif isinstance(n, ast.Call) and isinstance(n.func, ast.Attribute) and isinstance(n.func.value, ast.Name) \
+                    and n.args:
+                if n.func.attr in ('append', 'add', 'appendleft'):
+                    defs.setdefault(n.func.value.id, []).append(('fill', n.args[0]))
+                elif n.func.attr == 'insert' and len(n.args) > 1:
+                    defs.setdefault(n.func.value.id, []).append(('fill', n.args[1]))
+                elif n.func.attr in ('extend', 'update'):
+                    defs.setdefault(n.func.value.id, []).append(('fill-all', n.args[0]))
+            elif isinstance(n, ast.Subscript) and isinstance(n.ctx, ast.Store) and isinstance(n.value, ast.Name):
+                par = self.prog.parent(n)
+                if isinstance(par, ast.Assign) and n in par.targets:
+                    defs.setdefault(n.value.id, []).append(('fill', par.value))
         return defs
 
     def single_def(self, fn: FuncInfo, name: str) -> Optional[ast.AST]:
@@ -309,6 +322,8 @@ class Mutations:
                 else:
                     out.add(('elem', f'parameter {name} of enclosing {f.qualname}'))
             if defs:
+                env_f = self.cg.env(f)
+                fills: List[Tuple[tuple, tuple]] = []
                 for how, node in defs:
                     if how == 'expr':
                         out |= self.roots(f, node, seen)
@@ -316,6 +331,15 @@ class Mutations:
                         out |= step_roots(self.roots(f, node, seen), '[]')
                     elif how == 'fresh':
                         out.add(FRESH)
+                    elif how == 'fill':
+                        if not self._immutable_type(env_f.type_of(node)):
+                            fills.extend((('[]',), r) for r in self.roots(f, node, seen))
+                    elif how == 'fill-all':
+                        if not self._immutable_type(TypeEnv.elem_type(env_f.type_of(node))):
+                            fills.extend((('[]',), r) for r in step_roots(self.roots(f, node, seen), '[]'))
+                if fills:
+                    # every fresh container bound to the name also holds what is put into it later
+                    out = {mkfresh(list((p_, r_) for p_, r_ in r[1]) + fills) if r[0] == 'fresh' else r for r in out}
             if out or defs or name in params:
                 return out or {FRESH}
             f = f.parent
